@@ -449,7 +449,10 @@ func main() {
 			}
 		}
 		if i%40 == 0 {
-			enc, _ := wkt.Encode(build(Case{Skel: s, Rot: i % np}))
+			var enc []byte
+			if p := try(func() { enc, _ = wkt.Encode(build(Case{Skel: s, Rot: i % np})) }); p != "" {
+				r.Violation("encode-panic|sample", p)
+			}
 			r.Sample(10, string(enc))
 		}
 	})
